@@ -402,8 +402,20 @@ def _layout(rule, root):
         return
     cf = cands[0]
     ct = A.ftxt(cf["body"])
+    cts = str(ct)
     m = ct.fmatch("let$I=self.verts.len();self.verts.push($P);")
-    if m is not None and ct.fmatch("for$E in edges[0]{let$K=hermite.intersections[$E.to_undirected().index()];self.verts.push(CellVertex{pos:$K.pos.xyz()});}".replace(" in ", "in")) is not None and ct.fmatch("Some(Leaf{mask:mask,index:%s})" % m["$I"]) is not None:
+    okc = False
+    if m is not None and ct.fmatch("Some(Leaf{mask:mask,index:%s})" % m["$I"]) is not None:
+        i0 = cts.find("self.verts.push(")
+        # after the vertex: one crossing per edge of the table's single vertex list, in its order, each read from the
+        # hermite slot to_undirected() names - as a loop with push, or an extend over the mapped edge list
+        loop = ct.fmatch("for$E inedges[0]{let$K=hermite.intersections[$E.to_undirected().index()];self.verts.push(CellVertex{pos:$K.pos.xyz()});}".replace(" in", "in"))
+        ext = ct.fmatch("self.verts.extend(edges[0].iter().map(|$E|{let$K=hermite.intersections[$E.to_undirected().index()];CellVertex{pos:$K.pos.xyz()}}));")
+        ext2 = ct.fmatch("self.verts.extend(edges[0].iter().map(|$E|CellVertex{pos:hermite.intersections[$E.to_undirected().index()].pos.xyz()}));")
+        loop2 = ct.fmatch("for$E inedges[0]{self.verts.push(CellVertex{pos:hermite.intersections[$E.to_undirected().index()].pos.xyz()});}".replace(" in", "in"))
+        later = max(cts.find("edges[0]", i0), -1)
+        okc = any(x is not None for x in (loop, ext, ext2, loop2)) and later > i0 and "CELL_TO_VERT_TO_EDGES[mask.index()]" in cts
+    if okc:
         rule.ok("collapse: the merged leaf has its vertex at `index` and its crossings after it, in the table's edge order, each read from the hermite slot to_undirected() names", file=OCT, line=cf["ln"])
     else:
         rule.bad("collapse|layout", "a collapsed leaf must store its vertex at `index` followed by the crossings of CELL_TO_VERT_TO_EDGES[mask][0] in order, read from hermite.intersections[e.to_undirected().index()]", A.where(cf))
@@ -565,7 +577,10 @@ def r11_cell_geometry(rule, root=None):
     t = A.ftxt(A.inline_lets_deep(cn["body"]))
     pn = [A.binding_name(p["pat"]) for p in cn["sig"]["inputs"] if "pat" in p]
     pn = pn[0] if pn else "p"
-    if t.fmatch("Axis::array().into_iter().all(|$A|self[$A].contains(%s[$A]))" % pn) is not None or t.fmatch("!Axis::array().into_iter().any(|$A|!self[$A].contains(%s[$A]))" % pn) is not None:
+    if (t.fmatch("Axis::array().into_iter().all(|$A|self[$A].contains(%s[$A]))" % pn) is not None or t.fmatch("!Axis::array().into_iter().any(|$A|!self[$A].contains(%s[$A]))" % pn) is not None
+            or t.fmatch("Axis::array().iter().all(|$A|self[*$A].contains(%s[*$A]))" % pn) is not None
+            or t.fmatch("for$A inAxis::array(){if!self[$A].contains(%s[$A]){returnfalse;}}true".replace(" in", "in") % pn) is not None
+            or t.fmatch("for$A inAxis::array(){if(!self[$A].contains(%s[$A])){returnfalse;}}true".replace(" in", "in") % pn) is not None):
         rule.ok("CellBounds::contains: inside on every axis", file=CELL, line=cn["ln"])
     else:
         rule.bad("CellBounds::contains", "a vertex is inside the cell only if every axis' interval contains its coordinate on that axis", A.where(cn))
@@ -614,10 +629,16 @@ def r12_collapsible(rule, root=None):
                     src = A.strip(src["recv"])
                 corners = [_n(x) for x in interp.ev(src)]
                 center = interp.env.get("center")
-                records.append((corners, center, str(ct), node))
+                records.append((corners, center, str(ct), node, dict(interp.env)))
                 return None
         return NotImplemented
 
+    node_envs = {}
+    local_closures = {}
+    base = Fold([TYPES, FRAME], root, {})
+    for l_ in A.find(fn["body"], "Let"):
+        if l_.get("init") is not None and A.strip(l_["init"]).get("k") == "Closure" and A.binding_name(l_["pat"]) and not any(n_ is l_ for n_ in A.walk(fl)):
+            local_closures[A.binding_name(l_["pat"])] = ("closure", A.strip(l_["init"]).get("inputs", []), A.strip(l_["init"])["body"], None)
     F = Fold([TYPES, FRAME], root, {}, hook)
     try:
         F.env["cells"] = None
@@ -626,7 +647,7 @@ def r12_collapsible(rule, root=None):
         rule.bad("collapsible|fold", "the topological safety loops cannot be folded: %s" % e, A.where(fn))
         return
     seen = {"edge": set(), "face": set(), "cube": set()}
-    for corners, center, ct, node in records:
+    for corners, center, ct, node, renv in records:
         if not (isinstance(center, tuple) and center and center[0] == "CENTER"):
             rule.bad("collapsible|center", "the sign compared with the corners must come from `cells[child].corner(c)`", A.where(OCT, node))
             continue
@@ -647,14 +668,33 @@ def r12_collapsible(rule, root=None):
             rule.ok("coarse %s %s: the sign consulted (child %d, its corner %d) is the %s's midpoint" % (kind, list(key), child, cor, kind), file=OCT, line=node["ln"])
         else:
             rule.bad("collapsible|%s|%s" % (kind, "-".join(map(str, key))), "coarse %s %s is compared with child %d's corner %d, which sits at %s (half-cell units); the %s's midpoint is %s" % (kind, list(key), child, cor, probe, kind, mid), A.where(OCT, node))
-        if not re.search(r"\)!=center\)\)?$", ct) or "(mask&(1<<" not in ct:
-            rule.bad("collapsible|test|%s" % kind, "the element fails when *every* corner's sign (bit of `mask`) differs from the midpoint sign: `.all(|v| ((mask & (1 << v)) != 0) != center)`", A.where(OCT, node))
+        # the test itself, folded: it must hold exactly when every listed corner's sign (bit of `mask`) differs from
+        # the midpoint sign
+        verdict = None
+        for mval in (0x00, 0xFF, 0x5A, 0xC3, 0x01, 0x80, 0x3C, 0x96):
+            for cv in (False, True):
+                env_ = dict(renv)
+                env_.update({"mask": mval, "center": cv})
+                env_.update(local_closures)
+                try:
+                    got = Fold([TYPES, FRAME], root, env_).ev(node["cond"])
+                except (Stop, Unreachable, TypeError) as ex:
+                    verdict = "cannot be folded: %s" % ex
+                    break
+                want = all((((mval >> c) & 1) != 0) != cv for c in corners)
+                if got != want:
+                    verdict = "with mask %#04x and midpoint sign %s it answers %s" % (mval, cv, got)
+                    break
+            if verdict:
+                break
+        if verdict:
+            rule.bad("collapsible|test|%s" % kind, "the element fails when *every* corner's sign (bit of `mask`) differs from the midpoint sign; the test %s" % verdict, A.where(OCT, node))
     want = {"edge": 12, "face": 6, "cube": 1}
     for kind, n in want.items():
         if len(seen[kind]) != n:
             rule.bad("collapsible|coverage|%s" % kind, "the safety test covers %d coarse %ss, a cell has %d" % (len(seen[kind]), kind, n), A.where(fn))
     # each failing element returns None
-    for corners, center, ct, node in records:
+    for corners, center, ct, node, _renv in records:
         th = A.ftxt(node["then"])
         if th not in ("{returnNone;}", "{returnNone}"):
             rule.bad("collapsible|exit", "a failed element must make the cell non-collapsible (`return None`)", A.where(OCT, node))
